@@ -246,6 +246,7 @@ class MCNP_Problem:
         """
         trailing_comment = None
         last_obj = None
+        last_block = None
         OBJ_MATCHER = {
             block_type.BlockType.CELL: (Cell, self._cells),
             block_type.BlockType.SURFACE: (
@@ -291,11 +292,17 @@ class MCNP_Problem:
                             self._materials.append(obj)
                         if isinstance(obj, transform.Transform):
                             self._transforms.append(obj)
-                    if trailing_comment is not None and last_obj is not None:
+                    # comments at the end of a block stay in that block
+                    if (
+                        trailing_comment is not None
+                        and last_obj is not None
+                        and last_block == input.block_type
+                    ):
                         obj._grab_beginning_comment(trailing_comment)
                         last_obj._delete_trailing_comment()
                     trailing_comment = obj.trailing_comment
                     last_obj = obj
+                    last_block = input.block_type
         except UnsupportedFeature as e:
             if check_input:
                 warnings.warn(f"{type(e).__name__}: {e.message}", stacklevel=2)
